@@ -26,19 +26,29 @@ import c01lib as L1
 PID = "C01"
 # built in coq/ (independent of the source text); Gen_EventList / GenAgree / Props are compiled per tree (c01lib.EventListTree)
 TARGETS = ["EventList/KeyProofs.vo", "EventList/Refine.vo", "EventList/HeapqProofs.vo"]
-OPS = ["add", "remove", "pop", "peek", "contains", "size", "is_empty", "clear"]
+OPS = ["add", "remove", "pop", "peek", "contains", "size", "is_empty", "clear", "str", "repr"]
 
 
 # ------------------------------------------------------------------ generation
 def gen_history(rng: random.Random, kind: str):
     m = rng.randint(3, 9)
     tspan = rng.choice([1, 2, 3, 6])           # few distinct times -> many ties
+    # a third of the histories: six or more events, most of them tied on (time, priority), so that only the
+    # creation order tells them apart (and the array layout, after removals and re-adds, is not in that order)
+    tied = rng.random() < 0.34
+    if tied:
+        m = rng.randint(6, 9)
+        t_a, t_b = rng.randint(0, 2), rng.randint(0, 4)
     pool = []
     for _ in range(m):
         t4 = rng.randint(0, tspan * 2)          # time in quarters
+        # priorities: mostly the default, the documented range 1..10, and the legal values outside it (0, negative, > 10)
+        prio = rng.choice([5, 5, 5, 1, 10, rng.randint(1, 10), 0, rng.choice([-3, -1, 0, 11, 40])])
+        if tied:
+            t4 = t_a if rng.random() < 0.75 else t_b
+            prio = 5 if rng.random() < 0.8 else rng.choice([1, 0, 7])
         if kind == "huge":
             t4 -= 3                              # offset from 2**53, also negative (see make_time)
-        prio = rng.choice([5, 5, 5, 1, 10, rng.randint(1, 10)])
         pool.append((t4, prio))
     n = rng.randint(5, 40)
     ops = []
@@ -49,19 +59,23 @@ def gen_history(rng: random.Random, kind: str):
             absent = [i for i in range(m) if i not in live]
             i = rng.choice(absent) if absent and rng.random() < 0.92 else rng.randrange(m)
             ops.append(("add", i)); live.add(i)
-        elif r < 0.56:
+        elif r < 0.55:
             i = rng.choice(sorted(live)) if live and rng.random() < 0.85 else rng.randrange(m)
             ops.append(("remove", i)); live.discard(i)
-        elif r < 0.80:
+        elif r < 0.76:
             ops.append(("pop",))   # 'live' stays approximate: later removes may then hit popped events
-        elif r < 0.85:
+        elif r < 0.80:
             ops.append(("peek",))
-        elif r < 0.91:
+        elif r < 0.85:
             ops.append(("contains", rng.randrange(m)))
-        elif r < 0.95:
+        elif r < 0.88:
             ops.append(("size",))
-        elif r < 0.98:
+        elif r < 0.905:
             ops.append(("is_empty",))
+        elif r < 0.955:
+            ops.append(("str",))   # observers: looking at the list must not change what it hands out later
+        elif r < 0.98:
+            ops.append(("repr",))
         else:
             ops.append(("clear",)); live = set()
     # which pool entries are events of a SimEvent *subclass* (models subclass
@@ -175,6 +189,10 @@ def run_impl(hist, drain_every_step=False):
             return ("bool", el.is_empty())
         if op[0] == "clear":
             return ("none", el.clear())
+        if op[0] == "str":
+            return ("str", str(el))
+        if op[0] == "repr":
+            return ("str", repr(el))
         raise ValueError(op)
 
     def canon(o):
@@ -183,6 +201,8 @@ def run_impl(hist, drain_every_step=False):
             return ["none"] if v is None else ["bad", repr(v)]
         if tag == "bool":
             return ["bool", v] if isinstance(v, bool) else ["bad", repr(v)]
+        if tag == "str":
+            return ["str"] if isinstance(v, str) else ["bad", repr(v)]
         if tag == "nat":
             return ["nat", v] if isinstance(v, int) and not isinstance(v, bool) and v >= 0 else ["bad", repr(v)]
         return ["ev", v]
@@ -229,6 +249,13 @@ def run_cmp(hist):
     sub = hist.get("sub") or [False] * len(pool)
     evs = [(_SubEvent if sub[i] else SimEvent)(make_time(kind, t4, i), tgt, "m", prio)
            for i, (t4, prio) in enumerate(pool)]
+    attrs = []
+    for e in evs:
+        try:
+            attrs.append([e.time, e.priority, e.id])
+        except Exception as exc:  # noqa
+            attrs.append(["raise", type(exc).__name__, None])
+    hist["_attrs"] = attrs
     codes = []
     for a in evs:
         for b in evs:
@@ -251,6 +278,18 @@ def oracle_cmp(hist, codes):
     """The property's own clause: the comparison operators agree with the (time, -priority, creation order)
     order of the event list.  None, or (signature, description, (i, j))."""
     m = len(hist["pool"])
+    attrs = hist.pop("_attrs", None)
+    if attrs is not None:
+        # what was put into an event is what it orders by: time and priority read back as given, ids in creation order
+        for i, (t4, prio) in enumerate(hist["pool"]):
+            want_t = make_time(hist["kind"], t4, i)
+            got_t, got_p, got_id = attrs[i]
+            if type(got_p) is not int or got_p != prio or type(got_t) is not type(want_t) or got_t != want_t:
+                return ("event-attribute-read-back-differs",
+                        f"event #{i} created with time {want_t!r} and priority {prio} reads back time {got_t!r}, priority {got_p!r}", (i, i))
+            if i > 0 and not (isinstance(got_id, int) and isinstance(attrs[i - 1][2], int) and attrs[i - 1][2] < got_id):
+                return ("event-ids-not-in-creation-order",
+                        f"event #{i} (created after event #{i - 1}) has id {got_id!r}, event #{i - 1} has id {attrs[i - 1][2]!r}", (i - 1, i))
     for i in range(m):
         for j in range(m):
             ka, kb = key_of(hist, i), key_of(hist, j)
@@ -312,6 +351,8 @@ def oracle(hist, outs, final_drain, step_drains):
             exp = ["bool", not s]
         elif op[0] == "clear":
             s = []; exp = ["none"]
+        elif op[0] in ("str", "repr"):
+            exp = ["str"]           # some string; the pending set is as before (checked by the drains)
         if outs[k] != exp:
             sig = {"pop": "pop-not-minimum", "peek": "peek-not-minimum", "remove": "remove-answer-wrong",
                    "contains": "contains-answer-wrong", "size": "size-answer-wrong",
@@ -353,7 +394,8 @@ def cop(hist, op):
         return f"OpRemove {ckey(hist, op[1])}"
     if op[0] == "contains":
         return f"OpContains {ckey(hist, op[1])}"
-    return {"pop": "OpPop", "peek": "OpPeek", "size": "OpSize", "is_empty": "OpIsEmpty", "clear": "OpClear"}[op[0]]
+    return {"pop": "OpPop", "peek": "OpPeek", "size": "OpSize", "is_empty": "OpIsEmpty", "clear": "OpClear",
+            "str": "OpStr", "repr": "OpRepr"}[op[0]]
 
 
 def cout(hist, o):
@@ -363,6 +405,8 @@ def cout(hist, o):
         return f"OutBool {C.cbool(o[1])}"
     if o[0] == "nat":
         return f"OutNat {C.cnat(o[1])}"
+    if o[0] == "str":
+        return "OutStr"
     if o[0] == "ev":
         return "OutKey None" if o[1] is None else f"OutKey (Some {ckey(hist, o[1])})"
     return None   # raise / bad: not representable -> certain mismatch
@@ -470,7 +514,8 @@ def main(tier: str) -> int:
         cases.append((h, outs, dr))
     run.cov["evaluations"] = len(cases)
     run.cov["distinct_nontrivial"] = len(nontrivial)
-    run.cov["rule"] = ("random histories (len 5-40, 3-9 events, heavy time/priority ties, int/float/mixed/Duration times, and int/float times around 2**53) "
+    run.cov["rule"] = ("random histories (len 5-40, 3-9 events, heavy time/priority ties -- a third with >= 6 events mostly tied on (time, priority) --, "
+                       "priorities incl. 0 / negative / > 10, int/float/mixed/Duration times and int/float times around 2**53, ops incl. the observers str / repr) "
                        f"+ all histories of length <= {4 if tier == 'quick' else 5} over 4 events and add/remove/pop; "
                        "non-trivial = distinct history containing a removal from an interior position (>=3 pending, not the minimum) "
                        "followed by >= 2 successful pops")
